@@ -402,6 +402,13 @@ def run(prop, tier):
                         "divergences_belonging_to_other_properties": {k: len(x) for k, x in other_props.items()}},
         "samples": samples or [{"instance": results[0]["text"]}],
     }
+    if prop == "C05":
+        # residue numbering (spec/Residues.tla; not a clause of C05: differences are divergences in the evidence)
+        from . import residues as RS
+        rdiv, rcov = RS.run(g, I.core_instances() + I.extra_instances(), seed=common.seed())
+        v.coverage["residue_numbering"] = rcov
+        if rdiv:
+            v.notes.append("residue numbers differ from spec/Residues.tla (not a clause of C05): " + "; ".join(rdiv[:5]))
     if closab:
         v.coverage["closability_analysis"] = {"instances": len(closab),
                                               "wellposed_for_all_targets_and_closed": sorted(k for k, c in closab.items() if c["wellposed_for_all_targets"] and c["closed_when_done"]),
